@@ -114,7 +114,10 @@ def run(ctx):
         elif got and res.get("valid") is not True:
             ctx.violation(f"invalid-hugr:{f['key']}", f"coercion site {f['key']} compiles to invalid HUGR: {str(res['valid'])[:300]}", {"src": src})
     # values of the accepted sites
-    both = [res for f, res in zip(forms, results) if res["status"] == "ok" and f["site"]["accept"]]
+    # (the integer semantics of // and % is C04's subject - a divergence there says nothing about the
+    #  coercion; their sites are checked for the verdict only)
+    both = [res for f, res in zip(forms, results) if res["status"] == "ok" and f["site"]["accept"]
+            and f["site"]["pos"] not in ("meth_floordiv", "meth_mod")]
     trace, meta, problems = nt.build_trace(forms, both)
     if problems:
         raise lib.Machinery(f"{len(problems)} events could not be produced/evaluated, e.g. {problems[:3]}")
@@ -153,17 +156,20 @@ def replay(ctx, data):
     import gp
     from guppylang_internals.error import GuppyError
     rp = data["replay"]
-    srcs = [rp["src"]] if "src" in rp else [c["src"] for c in rp.get("cases", [])[:3]]
-    for src in srcs:
-        mod = gp.load(src)
+    if "cases" in rp:
+        for c in rp["cases"]:
+            a, b = eval(c["a"]), eval(c["b"])
+            print(c["site"], "a =", a, "b =", b, "| code:", nt.replay_case(c["src"], a, b), "| spec:", c["spec"])
+        return
+    mod = gp.load(rp["src"])
+    try:
         try:
-            try:
-                mod.f.compile_function()
-                print(src, "-> code: accepted; spec:", rp.get("site", rp.get("cases", [{}])[0]))
-            except GuppyError as e:
-                print(src, "-> code: rejected", type(e.error).__name__, "; spec:", rp.get("site"))
-        finally:
-            gp.unload(mod)
+            mod.f.compile_function()
+            print(rp["src"], "-> code: accepted; spec:", rp.get("site"))
+        except GuppyError as e:
+            print(rp["src"], "-> code: rejected", type(e.error).__name__, "; spec:", rp.get("site"))
+    finally:
+        gp.unload(mod)
 
 
 def selftest(ctx):
